@@ -117,6 +117,7 @@ func NewRenderContext(env *Environment, context map[string]interface{}, engine *
 	ctx.sandboxed = false
 	ctx.blockChain = nil
 	ctx.blockLevel = 0
+	ctx.lastLoadedTemplate = nil
 
 	// Copy the context values directly
 	if context != nil {
@@ -283,6 +284,17 @@ func (ctx *RenderContext) GetVariable(name string) (interface{}, error) {
 	// Return nil with no error for undefined variables
 	// Twig treats undefined variables as empty strings during rendering
 	return nil, nil
+}
+
+// currentTemplateName returns the name of the template this context is
+// rendering; template names written relative to a template ("./x", "../y")
+// resolve against it. It is per-render state: the engine is shared between
+// goroutines and must not carry it.
+func (ctx *RenderContext) currentTemplateName() string {
+	if ctx.lastLoadedTemplate != nil {
+		return ctx.lastLoadedTemplate.name
+	}
+	return ""
 }
 
 // GetVariableOrNil gets a variable from the context, returning nil silently if not found
